@@ -12,6 +12,12 @@ TRUST = ("Trusted: go/packages+go/ssa front end, the ikeverif VC generator, the 
          "library's own interfaces; runtime facts len<=cap<=2^48, allocation never fails. ")
 
 CLAIMED = {
+ "C01": dict(cat="proof", ref="DESIGN.md 4 (C01), 9.3",
+  text="The round trip is decided as the composition of two discharged halves over one explicit wire form: (a) lemma_C06_format proves, for all 9 suites, both roles, all keys, header fields and payload data, that what EncodeEncrypt emits is header | SK header | IV | CBC_enc(sender key, payloads|pad|padlen) | HMAC(sender key, everything before)[:icv]; (b) lemma_C06_accept / _empty prove that ANY datagram of that form (any IV, any legal padding, built by a textbook encoder in the lemma) is accepted by DecodeDecrypt in the opposite role with the same keys - header pre-parsed or not - and yields the original header fields and payload; plus the nil-key lemma (plain encode / decode) which is proved without bound. AES-CBC and HMAC are uninterpreted with CBCdec(CBCenc(x)) = x.",
+  note="The composition (a)+(b) => round trip is an argument in DESIGN.md 9.3 (it additionally uses CBCenc(CBCdec(c)) = c), not one SMT query: executing the decoder symbolically on the encoder's symbolic output exceeds the executor's memory budget. Bounded stand-ins: payload lists of exactly one payload (Nonce, any data up to 60000 octets) and the empty list; other payload kinds inherit C03's per-payload results."),
+ "C02": dict(cat="proof", ref="DESIGN.md 4 (C02), 9.3",
+  text="Structural core of rejection, proved with spy ciphers installed in the public Encr_i / Encr_r fields: for ANY received bytes and ANY SK body (related or not), at decryptMsg and again at the public entry point DecodeDecrypt (any header fields and flags, header pre-parsed or not), ciphertext reaches a cipher only after the truncated HMAC under the receiver's PEER-direction integrity key over every octet from the first header octet up to the checksum has been found equal to the checksum (all icv octets), and then exactly the peer-direction cipher is called once with the SK body minus checksum; the receiver's role alone selects the direction. A datagram presenting no SK payload is handled as an unprotected datagram with no cipher call. Safety (no crash on any bytes) is C04.",
+  note="That a tampered / truncated / spliced / cross-key / reflected datagram does not satisfy the HMAC equation is the ideal-MAC assumption (forgery probability 2^-96 or less), not a proof obligation. Bounded: datagrams with exactly one SK payload at the entry point; one unprotected Nonce payload for the non-SK case."),
  "C03": dict(cat="proof", ref="DESIGN.md 4 (C03), 9",
   text="Round-trip lemma functions (value -> Marshal -> Unmarshal -> value) over the real Marshal/Unmarshal bodies, all field values and byte-string lengths/contents universally quantified: header, KE, IDi, IDr, CERT, CERTREQ, AUTH, Nonce, Notify, Vendor ID, SK, EAP framing are loop-free and proved without any bound. List-structured bodies (CP, Delete, TSi, TSr, SA, whole messages) are proved for a stated number of elements with the loops unrolled under an unwinding assertion; those obligations are reported as bounded stand-ins and are not counted under obligations/discharged.",
   note="Bounded stand-ins: CP 2 attributes, Delete 0/2 SPIs, TS 2 selectors (all four family combinations), SA 1 proposal with 1-2 transforms (TV / TLV / no attribute, SPI 0..255 octets), message of 0 and 2 payloads, trailing SK. EAP-AKA' bodies are decided under C14."),
@@ -21,6 +27,9 @@ CLAIMED = {
  "C05": dict(cat="proof", ref="DESIGN.md 4 (C05), 9",
   text="The independent codec is the set of layout assertions written from the RFC 7296 text into the lemma functions (offsets, widths, endianness, reserved octets zero, length fields equal to real extents, last-substructure markers, next-payload chain ending in 0, header length = datagram size): they are proved of the real encoders' output for all field values, and the real decoders are proved to recover the fields from arbitrary reference-built bytes, including sender liberties (reserved bits set, critical flag on understood payloads). Loop-free payloads and the header without bound; list bodies as bounded stand-ins as in C03.",
   note="'transforms in any order' is covered per transform (each is filed under its own type) in the bounded SA lemmas only."),
+ "C06": dict(cat="proof", ref="DESIGN.md 4 (C06), 9.3",
+  text="Sender side (lemma_C06_format): for all 9 suites, both roles, every key, header field and payload datum, on an SA object with any history, the protected message is header (next = SK, length = datagram size) | SK generic header (next = type of the first inner payload or 0, length = final size) | 16-octet IV that is this call's draw from the random source | a body that a textbook AES-CBC decrypter under the SENDER's direction key turns into the inner payloads followed by padding and the pad-length octet | the truncated textbook HMAC under the sender's direction integrity key over everything before it. Receiver side (lemma_C06_accept / _empty): datagrams built by a textbook implementation in the lemma with ANY IV and ANY legal pad length 0..255 with arbitrary pad octets are accepted and decode to the payloads they were built from.",
+  note="AES-CBC and HMAC uninterpreted (inverse axiom only). Bounded stand-ins: inner payload list of exactly one payload (Nonce, any data <= 60000 octets) or empty."),
  "C07": dict(cat="proof", ref="DESIGN.md 4 (C07), 9.2",
   text="GenerateKeyForIKESA is executed symbolically for all 27 suites (one lemma per PRF, integrity and encryption algorithm symbolic), every nonce, shared secret and SPI pair, with HMAC as an uninterpreted function over abstract byte strings, and compared with a reference derivation written in the lemma over the standard library: SKEYSEED = HMAC(Ni|Nr, g^ir), seed = Ni|Nr|SPIi|SPIr (big endian), the seven keys = consecutive slices of prf+(SKEYSEED, seed) with the lengths typed from RFCs 2104/2403/2404/4868/3602 (also compared with the registries). The ready-to-use objects are probed: each PRF / integrity object computes HMAC under its key on any input, each cipher decrypts any ciphertext as textbook AES-CBC under its key. prf+ itself (lib.PrfPlus) is proved per iteration for every block and any buffered state of the hash object: T(i) = prf(K, T(i-1)|S|i), stream' = stream|T(i), with the loop invariant that ties block to the tail of stream; the seed builder has its own proved contract.",
   note="ASSUMED at the two call sites of lib.PrfPlus: its result is a function of (hash algorithm, key of the hash object, seed, length) - justified by the proved per-iteration contract, not itself a discharged obligation (the induction over blocks is an argument in DESIGN.md). Bounded stand-ins: whole-function comparison of PrfPlus with a textbook prf+ for outputs of 4 blocks (SHA-256) / 3 blocks (MD5). 'Initiator and responder end up with identical SAs' follows from the post-condition being a function of the inputs (C09 gives agreement on g^ir)."),
@@ -42,9 +51,22 @@ CLAIMED = {
  "C13": dict(cat="proof", ref="DESIGN.md 4 (C13)",
   text="Per-iteration step contracts of the payload-chain walker, proved for every iteration (the loop is cut at its head with an inferred invariant, so the position in the chain and the chain length are unbounded): an unsupported type (all 239 codes are one symbolic value) with the critical bit clear leaves the container untouched and continues with exactly (next = octet 0, rest = bytes after the stated length); with the critical bit set the iteration can only leave through the error return; for implemented types exactly one element is appended and octet 1 plays no role.",
   note="The whole-message corollary ('decodes exactly as the same message without them') follows from the step contract by induction over the chain; the induction itself is an argument in DESIGN.md, not a discharged obligation."),
+ "C14": dict(cat="proof", ref="DESIGN.md 4 (C14), 9.4",
+  text="EAP framing proved without bound for every code, identifier and datum: Success/Failure (header only, length 4), Identity / Notification / Nak (type octet, data, length field = packet size, round trip), Expanded (254, 24-bit vendor id, 32-bit vendor type), oversize packets refused instead of truncated. The EAP-AKA' setter is proved for every attribute type and every offered size 0..300: size rules (RAND/AUTN/MAC 16, KDF 2, RES 4..16, CHECKCODE 0/20/32), length in words, exact bit length for RES / KDF_INPUT, and 'the value read back is exactly the value set'. Per attribute type, one-attribute packets: Marshal emits the RFC 4187/5448 layout (multiple of four octets, zero padding, bit length), encoding twice is identical, and every well-formed wire image built octet by octet in the lemma (any padding octets) decodes to the value it carries and re-encodes to the same octets when canonical.",
+  note="Bounded stand-ins: EAP-AKA' packets with exactly one attribute (maps and the sorted key enumeration are executed exactly: range over a map as an arbitrary enumeration of the present keys, sort.Slice as a sorting network for <= 4 elements). Five genuine defects found by these lemmas were repaired (known_findings.json, 'fixed')."),
+ "C15": dict(cat="proof", ref="DESIGN.md 4 (C15), 9.4",
+  text="Sender: for every code, identifier, subtype, RAND, key and previous AT_MAC value, CalcEapAkaPrimeAtMAC returns the first 16 octets of textbook HMAC-SHA-256 under the key over the wire image written octet by octet in the lemma with the AT_MAC value zeroed. Receiver: decoding a transmitted packet (ascending attribute order, as the library sends) and computing the code with the same key gives the HMAC over the transmitted octets with AT_MAC zeroed. initMAC zeroes AT_MAC whatever it held; non-AKA' packets are refused.",
+  note="HMAC-SHA-256 uninterpreted: 'a different value if any octet or the key differs' is the ideal-MAC assumption. Bounded stand-ins: packets with AT_RAND + AT_MAC. KNOWN FINDING (not repaired, needs an order-preserving representation): for packets received with attributes in non-ascending order the code is computed over the re-ordered packet."),
  "C16": dict(cat="proof", ref="DESIGN.md 4 (C16), 9.2",
   text="EapAkaPrimePRF is executed symbolically against a textbook PRF' written in the lemma over the standard library's HMAC (T1 = HMAC(K, S|1), Tn = HMAC(K, T(n-1)|S|n)); HMAC-SHA-256 is an uninterpreted function over abstract byte-string values, so the comparison holds for every IK', CK' (any lengths >= 1) and identity string. Both loops have the constant trip count 7 and are unrolled completely with the unwinding assertion on (complete, not bounded). Obligations: empty IK'/CK' refused; result lengths 16/32/32/64/64; each result equals the stated octet range of T1|..|T7.",
   note="HMAC-SHA-256 is uninterpreted (only its output length is used); byte-string extensionality is instantiated for every pair of HMAC arguments; input lengths up to 2^40."),
+ "C17": dict(cat="proof", ref="DESIGN.md 4 (C17), 9.3",
+  text="History is cut by an object invariant instead of being explored: (1) lemma_C17_state_preserved proves that EncodeEncrypt and decryptMsg (any received bytes, any SK body: genuine, forged or malformed; success and every error return) leave the SA's object slots and cipher-object fields exactly as they were, and lemma_C17_child_derivation that a Child SA derivation leaves Prf_d / PrfInfo / SK_d as they were - so all any history can change is the buffered input of the long-lived hash objects; (2) every operation is then proved to meet its fresh-object contract from a state with ARBITRARY buffered hash input: protected messages have the reference form a fresh peer accepts (C06 format lemma), genuine reference-built messages are accepted (C06 accept lemma), forged ones fail the same HMAC equation (C02 lemma), derived Child SA keys equal those of a fresh SA (C08 lemma, two derivations in a row), and lib.PrfPlus's per-iteration contract holds for any buffered state. By induction over the history this covers every sequence of operations (the property's length-64 exploration is subsumed).",
+  note="The induction over the history is an argument (DESIGN.md 9.3) over discharged per-operation obligations. Bounded stand-ins as in C06/C02 (one inner payload)."),
+ "C18": dict(cat="other", ref="DESIGN.md 4 (C18), 9.5",
+  tech="frame (assigns) obligations decided by a data-flow analysis over go/ssa: no write to package-level state outside initialisers, interprocedural write-through-parameter and returns-shared summaries",
+  text="What contract-based verification can express of this property is its stated reason: the library keeps no mutable state outside the objects passed in. A frame analysis over the SSA of every non-test library function (one obligation per function) proves that outside package initialisers nothing derived from a package-level variable is stored to, appended to, copied into, map-updated, passed to a repository function that writes through that parameter, or passed to an external function not on a short read-only list; and that library code uses no goroutines, channels, sync, atomic or unsafe. With the per-operation frame results of C20 / C17 / C19 (decoders own their output, encoders return fresh buffers, SA operations touch only the SA passed in) operations on disjoint arguments write disjoint memory, hence cannot race (Go memory model) and return what they return alone.",
+  note="NOT decided: the schedule quantifier itself - no interleaving is executed and the race detector's observations are not reproduced; thread-safety of crypto/rand.Reader and of math/big read-only operations is assumed."),
  "C19": dict(cat="proof", ref="DESIGN.md 4 (C19)",
   text="Every builder and constructor is loop-free; its lemma function proves for all arguments and any prior container content that exactly one element is appended, earlier elements are untouched, the new element's dynamic type and fields equal the arguments (byte strings by content, in fresh storage), NewHeader sets version 2.0 and exactly the 0x20/0x08 flag bits which IsResponse/IsInitiator report back, and the 3GPP helpers emit the TS 24.502 layouts written into the lemmas, with errors (not truncation) for oversize arguments.",
   note="net.ParseIP(...).To4() is an assumed contract."),
